@@ -35,7 +35,8 @@ def edit_or_revert(r, p, past, kinds=None, p_revert=0.25):
     """An edit, or -- A -> B -> A -- the return of a function to an earlier edition of itself (the text the
     process has already seen once).  `past` maps name -> earlier editions."""
     cands = [(nm, old) for nm, olds in sorted(past.items()) for old in olds
-             if vprogs.node(p, nm) is not None and vprogs.node(p, nm)["kind"] == old["kind"] and vprogs.node(p, nm) != old]
+             if vprogs.node(p, nm) is not None and vprogs.node(p, nm)["kind"] == old["kind"] and vprogs.node(p, nm) != old
+             and not vprogs.node(p, nm).get("post")]
     if cands and r.random() < p_revert:
         nm, old = r.choice(cands)
         cur = vprogs.node(p, nm)
@@ -132,19 +133,46 @@ def history_c13(r, quick):
         elif x < 0.8:
             # swap a function between memento and plain (and back)
             cands = [n for n in p["nodes"] if n["kind"] in ("mem", "plain") and n["name"] != "m1" and not n.get("cls")
-                     and n.get("where") != "init"]
+                     and n.get("where") != "init" and not n.get("post") and not n.get("factory")]
+            if not cands:
+                continue
             n = r.choice(cands)
             n["kind"] = "plain" if n["kind"] == "mem" else "mem"
             n["explicit"] = None
             steps += [{"do": "set", "node": copy.deepcopy(n), "why": {"edit": "swap_kind"}},
                       {"do": "deliver", "how": "reexec", "name": n["name"]}]
-        elif x < 0.9 and alias_rebind(r, p, steps):
+        elif x < 0.86 and alias_rebind(r, p, steps):
             pass
+        elif x < 0.93:
+            # the name of a function is bound to a builtin (nothing memento tracks) / back to the unchanged definition;
+            # or to the plain function underneath the memento function (name = name.fn)
+            cands = [n for n in p["nodes"] if n["kind"] in ("mem", "plain", "builtin") and n["name"] != "m1" and not n.get("cls")
+                     and n.get("where") != "init" and not n.get("factory") and not n.get("post")
+                     and all(q["form"] in ("bare", "attr") for f in p["nodes"] if "refs" in f for q in f["refs"] if q["to"] == n["name"])]
+            if cands:
+                n = r.choice(cands)
+                if n["kind"] == "builtin":
+                    n.update(copy.deepcopy(past[n["name"]][-1]))
+                    why = "from_builtin"
+                    how = "reexec"
+                elif n["kind"] == "mem" and r.random() < 0.5:
+                    n["post"] = "fn"
+                    why, how = "unwrap", "unwrap"
+                elif n["kind"] == "mem":
+                    # (only memento functions: a name that holds an untracked object and is later bound to a PLAIN function is
+                    # watched by no hash rule at all -- that event is not among those C13 lists, see DESIGN.md limits)
+                    past.setdefault(n["name"], []).append(copy.deepcopy(n))
+                    n["kind"] = "builtin"
+                    why, how = "to_builtin", "reexec"
+                else:
+                    continue
+                steps += [{"do": "set", "node": copy.deepcopy(n), "why": {"edit": why, "name": n["name"]}},
+                          {"do": "deliver", "how": how, "name": n["name"]}]
         else:
             # re-execute an unchanged definition (a notebook cell run again)
             n = r.choice([n for n in p["nodes"] if n["kind"] in ("mem", "plain")])
             steps.append({"do": "deliver", "how": "reexec", "name": n["name"]})
-        mems = [n["name"] for n in p["nodes"] if n["kind"] == "mem"]
+        mems = [n["name"] for n in p["nodes"] if n["kind"] == "mem" and not n.get("post")]
         if r.random() < 0.8:
             steps.append({"do": "query", "name": r.choice(mems), "truth": True,
                           "how": r.choice(["plain", "plain", "plain", "clone", "wrapper", "partial"])})
@@ -343,6 +371,34 @@ def history_directed(r, prop, kind, inproc):
     return GEN[prop](r, True)
 
 
+def history_rebind(r, prop, what):
+    """Directed: the name of a memento function m1 uses is bound to a builtin and later to the unchanged definition
+    again (what = "builtin"), or to the plain function underneath it (what = "unwrap"); m1 asked at every stage."""
+    for _ in range(200):
+        p0 = vprogs.random_prog(r, nmem=r.choice([2, 3]), nplain=1, nvar=1, hidden_p=0.0, forms=("bare", "attr"), shapes_p=0.3)
+        p = copy.deepcopy(p0)
+        deps = [n for n in p["nodes"] if n["kind"] == "mem" and n["name"] != "m1" and reaches(p, "m1", n["name"])]
+        if not deps:
+            continue
+        n = r.choice(deps)
+        ask = (lambda: {"do": "call", "name": "m1"}) if prop == "C01" else (lambda: {"do": "query", "name": "m1", "truth": True})
+        steps = [{"do": "proc", "hashseed": "0"}, ask()]
+        if what == "unwrap":
+            n["post"] = "fn"
+            steps += [{"do": "set", "node": copy.deepcopy(n), "why": {"edit": "unwrap", "name": n["name"]}},
+                      {"do": "deliver", "how": "unwrap", "name": n["name"]}, ask()]
+        else:
+            orig = copy.deepcopy(n)
+            n["kind"] = "builtin"
+            steps += [{"do": "set", "node": copy.deepcopy(n), "why": {"edit": "to_builtin", "name": n["name"]}},
+                      {"do": "deliver", "how": "reexec", "name": n["name"]}, ask()]
+            n.update(orig)
+            steps += [{"do": "set", "node": copy.deepcopy(n), "why": {"edit": "from_builtin", "name": n["name"]}},
+                      {"do": "deliver", "how": "reexec", "name": n["name"]}, ask()]
+        return {"prog": p0, "steps": steps, "directed": what}
+    return GEN[prop](r, True)
+
+
 def reaches_alias(p, src):
     """does src (transitively) call through an alias name?"""
     seen, todo = set(), [src]
@@ -411,6 +467,8 @@ def run(prop, tier):
                     jobs.append(history_directed(r, prop, kind, inproc=True))
                     if prop == "C01":
                         jobs.append(history_directed(r, prop, kind, inproc=False))
+                for what in ("builtin", "unwrap", "builtin"):
+                    jobs.append(history_rebind(r, prop, what))
         traces = common.run_jobs("ver_worker.py", jobs, wd, timeout=3000)
         common.tick("executed %d histories" % len(traces))
         payload = [{"cfg": {"prop": prop}, "ev": merge_truth(t["ev"])} for t in traces]
